@@ -155,18 +155,18 @@ CHECKS = {
                   "random options: every result line is compared with the extracted model, and after every step a full scan of the "
                   "implementation is checked against the abstract log built only from what the implementation reported.",
              ref='6/C01', technique='Coq proof (history-level refinement to an abstract log by invariant) + differential correspondence with extracted model'),
- 'C11': dict(text="Partial. Proved (Coq): Close leaves a directory in which every segment (not only the newest) is well-formed and every index "
-                  "file that is present and not header-only agrees with its log file on every offset and file position; removing any subset "
-                  "of index files keeps the directory well-formed with the same content; reopening it in any mode (read-write or read-only, "
-                  "Check/Recover/eager migration) re-establishes Inv with the same messages and NextOffset, so by the C03/C04 theorems "
-                  "Consume and Get answer identically; the lazy rebuild (reader.getIndex / ReindexAndReadIndex) returns an index that "
-                  "agrees with the log. Not yet proved in Coq: equality of the key-hash and timestamp columns with the derived index (the "
-                  "invariant tracks offsets and positions); that part is decided by the run-time check only. Tied to /repo by seeded "
-                  "histories: segment.Check on every segment of every closed directory (monotone times), and twin sessions with and "
-                  "without index files whose query answers (Consume, Get, key/time lookups, Stat) are compared line by line and with "
-                  "the extracted model.",
-             ref='6/C11', technique='Coq proof (closed-directory invariant, index removal, reopen) + differential correspondence',
-             note="Key-hash/timestamp columns of the index are not in the proved invariant yet (offsets and positions are). " + COMMON_NOTE),
+ 'C11': dict(text="Proof (Coq): in every state reached by a history that keeps its index options (publishes with rollover, deletes, reads, "
+                  "close/reopen in any mode, index removal, Migrate, Recover) every index file present - of every segment, not only the "
+                  "newest - is header-only or EXACTLY the index derived from its log file: offsets, positions and key hashes always; "
+                  "timestamps as the running maximum from a start value (0 when rebuilt, the carried time when written by the writer), "
+                  "which equals the message times whenever these never decrease; Close leaves every segment well-formed; removing any "
+                  "subset of index files keeps the directory well-formed with the same content; reopening it in any mode (read-write or "
+                  "read-only, Check/Recover/eager migration) re-establishes the invariants with the same messages and NextOffset, so by "
+                  "the C03/C04/C09 theorems Consume, Get and key lookups answer identically (time lookups: C10); the lazy rebuild returns "
+                  "the derived index. Tied to /repo by seeded histories: segment.Check on every segment of every closed directory "
+                  "(monotone times), and twin sessions with and without index files whose query answers (Consume, Get, key/time "
+                  "lookups, Stat) are compared line by line and with the extracted model.",
+             ref='6/C11', technique='Coq proof (exact-index invariant over histories, index removal, reopen) + differential correspondence'),
  'C17': dict(text="Proof (Coq): Migrate of a closed directory preserves every message and NextOffset, leaves every segment in the requested "
                   "version, and a second Migrate is the identity; Open with EagerVersionMigrate (and every other mode) of a directory whose "
                   "segments use any mix of versions shows the same abstract log; delete-by-rewrite changes the abstract log only by the "
